@@ -1,4 +1,5 @@
 """C07 — slices select exactly the elements of the specified start:stop:step rule."""
+import re
 from .. import slicecheck
 from ..analysis import Branches, Origins, edge_dominates, fmt_terms, reach_avoiding
 from ..parsing import AST, P, region_aggs
@@ -182,6 +183,11 @@ def check_parse_index(ctx, lib):
     ok = len(init) == 1 and len(init[0]["rv"]["ops"]) == 3 and all(
         o.of_operand(x) == {("agg", "std::option::Option::None", (), ())} or
         all(t[0] == "agg" and t[1] == "std::option::Option::None" for t in o.of_operand(x)) for x in init[0]["rv"]["ops"])
+    if not ok and not init:
+        # `[None; 3]` (or `[None; N]` with a named constant N = 3)
+        rep = [s for _, _, s in b.stmts() if s["k"] == "assign" and s["rv"]["k"] == "repeat"]
+        ok = len(rep) == 1 and re.search(r";\s*3\]$", rep[0]["place"].get("ty", "") or b.local_ty(rep[0]["place"]["l"])) is not None and \
+            all(t[0] == "agg" and t[1] == "std::option::Option::None" for t in o.of_operand(rep[0]["rv"]["op"])) and bool(o.of_operand(rep[0]["rv"]["op"]))
     ctx.check(ok, rule, "slots-init", "the three slots start as None (omitted parts stay None)", b.span)
 
 
